@@ -292,6 +292,10 @@ func (h *Harness) Execute(spec *RunSpec) (*RunReport, *Outcome, error) {
 	leaked := map[int]bool{}
 	for _, id := range sim.Stats().Leaked {
 		leaked[id] = true
+		if id >= len(spec.Tasks) {
+			rep.Violations = append(rep.Violations, Violation{Class: "deadlock", Task: id, Op: "?",
+				Detail: "a goroutine started by the code under test (go statement) is blocked forever after every caller has finished", Sig: "deadlock:blocked-forever"})
+		}
 	}
 	rep.Ranges, rep.RangesMulti = simrt.RangeCounts()
 	out.Sim = res
